@@ -206,8 +206,17 @@ def make_fitter(d, case, bands=None, **kw):
     if case.get('fmt') == 'v2':
         kw.setdefault('use_memmap', False)      # float64 model fluxes: the comparison tolerances assume them (the float32 memory map is exercised by C08 and by rr_mm below)
     drq = None if (case['mode'] == '2d' and case.get('no_drange')) else np.array(dr) * u.kpc      # the range has no meaning for distance-independent packages: it may be left out
-    return Fitter(['F%d' % j for j in bands], np.array(theta) * u.arcsec, d, extinction_law=make_extinction(case['ext']),
-                  av_range=tuple(case['av_range']), distance_range=drq, **kw)
+    if drq is not None and case.get('drange_dtype') == 'float32':      # the same two numbers held in single precision
+        drq = drq.astype(np.float32)
+    avr = tuple(case['av_range'])
+    if case.get('av_list'):
+        # the A_V range handed over as a list which the caller goes on to use for something else once the Fitter is built
+        avr = list(case['av_range'])
+    f = Fitter(['F%d' % j for j in bands], np.array(theta) * u.arcsec, d, extinction_law=make_extinction(case['ext']),
+               av_range=avr, distance_range=drq, **kw)
+    if case.get('av_list'):
+        avr[0], avr[1] = avr[0] - 1.0, avr[1] + 17.0
+    return f
 
 
 def info_out(info, fitter=None):
@@ -292,7 +301,7 @@ def model_request(case, src=None):
     if d0 == d1:
         ds = [d0]
     else:
-        n = int(np.ceil(1 + (np.log10(d1) - np.log10(d0)) / case['logd_step']))
+        n = n_grid(case)[0]
         ds = [float(x) for x in np.logspace(np.log10(d0), np.log10(d1), n)]
         ds[0], ds[-1] = d0, d1
     logds = [float(np.log10(x)) for x in ds]
@@ -380,6 +389,31 @@ def canon_chi(x):
     return 'HUGE' if x >= HUGE * 0.999999 else x
 
 
+def decades(case):
+    """k if dmax/dmin is exactly 10**k (k = 1..6), else None"""
+    d0, d1 = F(case['drange'][0]), F(case['drange'][1])
+    for k in range(1, 7):
+        if d1 == d0 * 10 ** k:
+            return k
+    return None
+
+
+def n_grid(case):
+    """(n, also_ok): the documented number of trial distances ceil(1 + L/step), L = log10(dmax/dmin).  When the range spans a whole
+    number of decades L is known exactly and so is n (rational arithmetic with the step as the double it is); n - 1 is acceptable
+    as well when 1 + L/step exceeds a whole number by less than 1e-9 (the spacing then exceeds the step by a rounding error).
+    Otherwise numpy's log10 is the oracle."""
+    import math
+    import numpy as np
+    d0, d1 = case['drange']
+    k = decades(case)
+    if k is not None:
+        x = 1 + F(k) / F(case['logd_step'])
+        n = math.ceil(x)
+        return n, ([n - 1] if 0 < x - math.floor(x) < Fraction(1, 10 ** 9) else [])
+    return int(np.ceil(1 + np.log10(d1 / d0) / case['logd_step'])), []
+
+
 def grid_of(case):
     """the harness' own evaluation of the documented distance grid (numpy oracles for log10 / logspace)"""
     import numpy as np
@@ -387,7 +421,7 @@ def grid_of(case):
     if d0 == d1:
         ds = [d0]
     else:
-        n = int(np.ceil(1 + (np.log10(d1) - np.log10(d0)) / case['logd_step']))
+        n = n_grid(case)[0]
         ds = [float(x) for x in np.logspace(np.log10(d0), np.log10(d1), n)]
         ds[0], ds[-1] = d0, d1          # the grid includes both ends of the requested range (10**log10(d) may be one ulp off)
     return ds, [float(np.log10(x)) for x in ds]
